@@ -95,7 +95,7 @@ def template(rng, L):
         return {"t": "tpl", "n": "BEL", "p": [[ang(rng) for _ in w]], "w": w}
     if r < 0.9:
         return {"t": "tpl", "n": "AE", "p": [ang(rng) for _ in w], "w": w, "rot": rng.choice(["X", "Y", "Z"])}
-    if r < 0.95:
+    if r < 0.95 and len(w) >= 2:
         return {"t": "tpl", "n": "GROVER", "w": w}
     return {"t": "pr", "word": "".join(rng.choice("XYZ") for _ in w), "p": [ang(rng)], "w": w}
 
@@ -231,7 +231,7 @@ CORPUS = [
 
 def run(ctx):
     ctx.coq_props()
-    n = 64 if ctx.tier == "quick" else 600
+    n = 56 if ctx.tier == "quick" else 400
     rng = ctx.rng
     cases = [json.loads(json.dumps(c)) for c in CORPUS]
     if getattr(ctx, "replay", None) and isinstance(ctx.replay.get("replay"), dict) and "case" in ctx.replay["replay"]:
